@@ -311,7 +311,7 @@ def c02_extra(Job, tier):
     cfg = CFG_NDEBUG
     return [Job("D_info_line_%s" % cfg[0], "harness/dfs_info.c", "h_info_line", enforce=["info_line"], defines=list(cfg[1]),
                 extract=ext(INFO_GROUP), tier="quick", solver="portfolio",
-                cbmc=["--unwindset", "CatalogEntry_name.0:8", "--unwinding-assertions"])] + catsort_jobs(Job) + fragment_jobs(Job)
+                cbmc=["--unwindset", "CatalogEntry_name.0:8", "--unwinding-assertions"])] + catsort_jobs(Job) + fragment_jobs(Job) + inf_jobs(Job)
 
 
 # ---- write_span of extract-unused (C11 dfs half, C14) ---------------------------------------------------------------
@@ -364,7 +364,7 @@ def main_tail_jobs(Job, cfg=CFG_NDEBUG, tier="quick"):
 
 
 def c11_jobs(Job, tier):            # noqa: F811
-    return write_span_jobs(Job) + listtype_jobs(Job)[1:2] + main_tail_jobs(Job) + extractwrite_jobs(Job)
+    return write_span_jobs(Job) + listtype_jobs(Job)[1:2] + main_tail_jobs(Job) + extractwrite_jobs(Job) + inf_jobs(Job)
 
 
 # ---- gzip reader (C10 ii) ----------------------------------------------------------------------------------------------
@@ -574,3 +574,9 @@ def extractwrite_jobs(Job, cfg=CFG_NDEBUG, tier="quick"):
     g = ["extract_files_visitor", "extract_files_write_body"]
     return [Job("D_extract_files_visitor_%s" % cfg[0], "harness/dfs_extractwrite.c", "h_visitor", enforce=["extract_files_visitor"], defines=list(cfg[1]), extract=ext(g), tier=tier),
             Job("D_extract_files_write_body_%s" % cfg[0], "harness/dfs_extractwrite.c", "h_write_body", enforce=["extract_files_write_body"], defines=list(cfg[1]), extract=ext(g), tier=tier, cover=True)]
+
+
+def inf_jobs(Job, cfg=CFG_NDEBUG, tier="quick"):
+    return [Job("D_create_inf_file_%s" % cfg[0], "harness/dfs_inf.c", "h_inf", enforce=["create_inf_file"], defines=list(cfg[1]),
+                extract=ext([n for n in INFO_GROUP if n != "info_line"] + ["create_inf_file"]), tier=tier, solver="portfolio", cover=True,
+                cbmc=["--unwindset", "CatalogEntry_name.0:8,spec_streq_.0:9", "--unwinding-assertions"])]
